@@ -10,8 +10,8 @@ import (
 )
 
 // mval is the purely functional model of a value: an int, a bool, a list of model values or a map
-// from keys to model values. A model value is built once and never written again (every model
-// operation below builds a new one), so "the model value of a handle never changes" holds by
+// from keys to model values. A model value is built once and its content is never written again
+// (every model operation below builds a new one), so "the model value of a handle never changes" holds by
 // construction on the model side; the check is that the real object keeps agreeing with it.
 type mval struct {
 	kind byte // 'i' int, 'b' bool, 'l' list, 'm' map
@@ -24,8 +24,6 @@ type mval struct {
 	// (a list-backed map filled from a hash-backed one: fixed from then on, but not predictable)
 	ord byte
 	str string // rendering in the library's string() format, cached
-	// diff caches differing(m) (model values are immutable)
-	diff []*mval
 }
 
 func mInt(i int) *mval { return &mval{kind: 'i', i: i, str: strconv.Itoa(i)} }
@@ -202,13 +200,6 @@ func fresh(m *mval) value.Value {
 // differing returns model values that are close to m but not equal to it (for the negative
 // equality observations).
 func differing(m *mval) []*mval {
-	if m.diff == nil {
-		m.diff = differing0(m)
-	}
-	return m.diff
-}
-
-func differing0(m *mval) []*mval {
 	var out []*mval
 	switch m.kind {
 	case 'l':
@@ -349,6 +340,15 @@ func mCombinePairs(a *mval) *mval {
 	var out []*mval
 	for i := 0; i+1 < len(a.l); i++ {
 		out = append(out, mList(a.l[i], a.l[i+1]))
+	}
+	return mList(out...)
+}
+
+// combineN(n, w->w): every group of n successive items, as a list, in list order.
+func mWindows(a *mval, n int) *mval {
+	var out []*mval
+	for i := 0; i+n <= len(a.l); i++ {
+		out = append(out, mList(a.l[i:i+n]...))
 	}
 	return mList(out...)
 }
